@@ -1,5 +1,7 @@
 #!/bin/sh
 # usage: tools/all_mutants.sh  -- every stored seeded change against the quick check of its property
+# evidence files are rewritten by every run: keep the clean-tree ones aside and put them back afterwards
+rm -rf /root/scratch/evidence.keep && mkdir -p /root/scratch && cp -r /verif/evidence /root/scratch/evidence.keep
 cd /verif
 for d in seeded/*/; do
   n=$(basename $d); id=$(python3 -c "import json;print(json.load(open('$d/meta.json'))['property'])")
@@ -9,3 +11,4 @@ for d in seeded/*/; do
   cd /repo && git checkout -- . ; cd /verif
 done
 git -C /repo status --short | head -3
+rm -rf /verif/evidence && cp -r /root/scratch/evidence.keep /verif/evidence
